@@ -767,7 +767,9 @@ func genCase(r *vc.Rand, s *Schema, root protoreflect.MessageDescriptor, types *
 			}
 			continue
 		default:
-			key = r.Pick([]string{"unknown", "n.unknown", "a[b][c]", "x[", "]", "[k]", "", "n..x", "i32.x", "ri[0]", "unknown[k]"})
+			key = r.Pick([]string{"unknown", "n.unknown", "a[b][c]", "x[", "]", "[k]", "", "n..x", "i32.x", "ri[0]", "unknown[k]",
+				// a non-message field named by its JSON name, with something below it: an error, as with the proto name
+				"snakeCaseName.x", "customJSON.y", "n.snakeCase.x", "snake_case_name.x"})
 			base := key
 			if i := strings.IndexByte(key, '['); i > 0 {
 				base = key[:i] // the bracket form addresses the same field as the plain key: never both (order dependent)
